@@ -37,9 +37,60 @@ func (g *Gen) iterLimOp(it *genIter, o string, k, lim int) {
 	it.positioned = true
 	it.pfxMode = false
 	g.lastValid = e.S("st") == "valid"
+	g.lastSt = e.S("st")
 	if o == "seekgel" || o == "nextl" {
 		it.dirlock = "f"
 	} else {
 		it.dirlock = "b"
 	}
+}
+
+// actPausedSeek: an iterator paused at a limit, then an ABSOLUTE seek at every key around the
+// position it is paused on (the paused key itself included): the shortcuts that reuse a paused
+// position must agree with a plain seek.  The pause is re-established before every probe.
+func (g *Gen) actPausedSeek() {
+	if len(g.iters) == 0 {
+		g.actNewIter()
+	}
+	if len(g.iters) == 0 {
+		return
+	}
+	it := g.iters[g.Rng.IntN(len(g.iters))]
+	if it.batch {
+		return
+	}
+	R := g.U.R()
+	fwd := g.Rng.IntN(2) == 0
+	k := g.Rng.IntN(R + 1)
+	if fwd {
+		// SeekGEWithLimit(k, lim) pauses when the first key >= k is >= lim
+		lim := k + g.Rng.IntN(3)
+		if lim > R {
+			lim = R
+		}
+		g.iterLimOp(it, "seekgel", k, lim)
+		if g.lastSt != "atlimit" {
+			it.dirlock = "f"
+			return
+		}
+		for c := max(0, k-1); c <= min(R, lim+3); c++ {
+			g.iterLimOp(it, "seekgel", k, lim)
+			g.iterOp(it, "seekge", c)
+		}
+	} else {
+		lim := k - g.Rng.IntN(3)
+		if lim < 0 {
+			lim = 0
+		}
+		g.iterLimOp(it, "seekltl", k, lim)
+		if g.lastSt != "atlimit" {
+			it.dirlock = "b"
+			return
+		}
+		for c := max(0, lim-3); c <= min(R, k+1); c++ {
+			g.iterLimOp(it, "seekltl", k, lim)
+			g.iterOp(it, "seeklt", c)
+		}
+	}
+	it.dirlock = ""
 }
